@@ -142,7 +142,7 @@ func checkCase(c Case) fw.Outcome {
 	var firstTrace []tree.Call
 	for pass := 0; pass < 2; pass++ {
 		m, want, werr := models[pass], wants[pass], werrs[pass]
-		tr := &tree.Tree{ValueOf: valueOf}
+		tr := &tree.Tree{ValueOf: valueOf, SharedPaths: c.StoredPaths && pass == 0}
 		if pass == 1 {
 			tr.Absent = func(v string) bool { return onlyFirst[v] }
 		}
@@ -200,6 +200,25 @@ func checkCase(c Case) fw.Outcome {
 		for n := range tr.Named {
 			if !m.named[n] {
 				out.Violation = fmt.Sprintf("a navigation of the run names the list entry %s, which no path names\n%s", n, describe())
+				return out
+			}
+		}
+		if c.StoredPaths && pass == 0 {
+			// once more on the same tree, which keeps the path objects it handed out
+			tr.Trace, tr.Named = nil, nil
+			res2 := xpath.NewCtxFromCurrent(context.Background(), mach, tr.At(ctxs[pass])).Run()
+			var again []Req
+			for _, call := range tr.Trace {
+				if call.Err == "" && (call.Op == "GetValue" || call.Op == "FollowLeafRef") {
+					again = append(again, Req{call.Op, call.Recv})
+				}
+			}
+			if res2.GetError() != nil || fmt.Sprint(again) != fmt.Sprint(got) {
+				out.Violation = fmt.Sprintf("evaluated again on the same data tree (which hands out stored path objects) the machine asks differently: %v (error %v)\n%s", again, res2.GetError(), describe())
+				return out
+			}
+			if msg, ok := tr.StoredPathsIntact(); !ok {
+				out.Violation = fmt.Sprintf("the evaluation wrote into a path object of the data tree: %s\n%s", msg, describe())
 				return out
 			}
 		}
